@@ -1,11 +1,108 @@
 package sym
 
-import "golang.org/x/tools/go/ssa"
+import (
+	"fmt"
 
-// noteAccess records a plain memory access for the race check (see race refinement).
-func (e *Engine) noteAccess(st *State, p Ptr, n int, write bool) {}
+	"golang.org/x/tools/go/ssa"
+)
 
-// promotedAccess turns loads/stores of promoted (racy) cells into visible operations.
+// Data-race check (DESIGN §3.5). Plain memory accesses are not scheduling points, which is sound
+// for data-race-free code. Every thread keeps the set of cells it accessed in its most recent
+// atomic block (after its last visible operation). An access by another thread to a cell of such
+// an open set, one of the two being a write, is unordered by happens-before: a data race.
+type accessRec struct {
+	obj   ObjID
+	off   int
+	n     int
+	write bool
+	instr ssa.Instruction
+}
+
+func (e *Engine) noteAccess(st *State, p Ptr, n int, write bool) {
+	if !e.RaceCheck || len(st.Threads) < 2 || e.curThread == 0 {
+		return
+	}
+	ti := st.threadIdx(e.curThread)
+	if ti < 0 {
+		return
+	}
+	th := st.Threads[ti]
+	if th.Atomic > 0 || e.promoted[e.curInstr] {
+		return
+	}
+	for _, ot := range st.Threads {
+		if ot.ID == th.ID || ot.Exited {
+			continue
+		}
+		skip := 0
+		if th.BarParent == ot.ID && ot.Blocks == th.BarBlocks {
+			skip = th.BarN // accesses of the parent that precede the go statement
+		}
+		for i, a := range ot.Open {
+			if i < skip {
+				continue
+			}
+			if a.obj != p.Obj || !(write || a.write) {
+				continue
+			}
+			if a.off < p.Off+n && p.Off < a.off+a.n {
+				e.recordRace(st, p, a.instr, e.curInstr, a.write, write)
+			}
+		}
+	}
+	w := st.threadW(ti)
+	w.Open = append(w.Open[:len(w.Open):len(w.Open)], accessRec{p.Obj, p.Off, n, write, e.curInstr})
+}
+
+func (e *Engine) recordRace(st *State, p Ptr, a, b ssa.Instruction, aw, bw bool) {
+	rw := func(w bool) string {
+		if w {
+			return "write"
+		}
+		return "read"
+	}
+	pa, pb := e.pos(a), e.pos(b)
+	if pb < pa {
+		pa, pb = pb, pa
+		aw, bw = bw, aw
+	}
+	key := pa + " / " + pb
+	if _, ok := e.Races[key]; ok {
+		return
+	}
+	what := ""
+	if o := st.Heap[p.Obj]; o != nil && o.T != nil {
+		what = fmt.Sprintf(" on %s+%d (allocated at %s)", o.T, p.Off, o.Site)
+	}
+	e.Races[key] = fmt.Sprintf("%s at %s races with %s at %s%s", rw(aw), pa, rw(bw), pb, what)
+	if a != nil {
+		e.RaceInstrs[a] = true
+	}
+	if b != nil {
+		e.RaceInstrs[b] = true
+	}
+	if e.RaceIsViolation {
+		e.report(st, &Violation{Kind: "race", Label: "data race: " + e.Races[key], Cond: st.PC})
+	}
+}
+
+// promotedAccess turns loads/stores at promoted (racy) instructions into visible operations.
 func (e *Engine) promotedAccess(st *State, th *Thread, p Ptr, in ssa.Instruction, v Value) *VisOp {
-	return nil
+	if len(e.promoted) == 0 || !e.promoted[in] || th.Atomic > 0 {
+		return nil
+	}
+	if p.Obj == 0 {
+		e.nilDeref("promoted access")
+	}
+	if _, ok := in.(*ssa.Store); ok {
+		return &VisOp{Kind: VStore, P: p, Val: v, Instr: in}
+	}
+	return &VisOp{Kind: VLoad, P: p, Instr: in}
+}
+
+// Promote marks instructions (by source position) as visible accesses for the next run.
+func (e *Engine) Promote(instrs map[ssa.Instruction]bool) {
+	for in := range instrs {
+		e.promoted[in] = true
+	}
 }
